@@ -198,7 +198,7 @@ def run_case(case, acc, order):
         if case.get('n_spikes'):
             # beyond one 50 000-spike batch of get_depths
             spec.update(n_spikes=case['n_spikes'], spike_templates=None, spike_clusters='same')
-        res = ac.run_convert(spec=spec, label=label, factor=f)
+        res = ac.run_convert(spec=spec, label=label, factor=f, twice=bool(case.get('twice')))
         if res.get('truth') is not None and res['truth']['pc_features'] is not None and \
                 res['truth']['pc_features'].shape[0] == spec['n_spikes']:
             res['src_files']['__pc_features__'] = res['truth']['pc_features']
@@ -247,7 +247,7 @@ def explore(ctx):
                             i += 1
                             cfg = dict(default, curation=cur, features=feat, whitening=wh,
                                        unused_top=unused, raw=(i % 2 == 0))
-                            cases.append({'kind': 'single', 'cfg': cfg, 'factor': f,
+                            cases.append({'kind': 'single', 'cfg': cfg, 'factor': f, 'twice': i % 3 == 0,
                                           'label': ['', 'probe00'][i % 2], 'probes': probes,
                                           'sample_rate': [100.0, 30000.0][(i // 2) % 2],
                                           'fill': ctx.seed + i % 3})
